@@ -1,0 +1,144 @@
+//! Verification hooks (feature `verif`).
+//!
+//! Compiled only with `--features verif`. Re-exports crate-private items so that an external
+//! harness can evaluate them directly, and provides a virtual replacement for
+//! `std::time::Instant` whose clock is owned by the harness.
+
+pub use crate::common::partition::block_length;
+pub use crate::common::partition::block_partitioning;
+pub use crate::tools::ntp_to_system_time;
+pub use crate::tools::system_time_to_ntp;
+
+/// TOI reserved for the FDT
+pub const TOI_FDT: u128 = crate::common::lct::TOI_FDT;
+
+/// Fields of the crate-private packet descriptor (`common::pkt::Pkt`)
+#[derive(Debug, Clone)]
+pub struct PktFields {
+    /// payload
+    pub payload: Vec<u8>,
+    /// transfer length
+    pub transfer_length: u64,
+    /// encoding symbol id
+    pub esi: u32,
+    /// source block number
+    pub sbn: u32,
+    /// toi
+    pub toi: u128,
+    /// FDT instance id (TOI 0 only)
+    pub fdt_id: Option<u32>,
+    /// content encoding
+    pub cenc: crate::core::lct::Cenc,
+    /// emit EXT_CENC
+    pub inband_cenc: bool,
+    /// B flag
+    pub close_object: bool,
+    /// source block length
+    pub source_block_length: u32,
+    /// emit EXT_TIME
+    pub sender_current_time: bool,
+}
+
+/// Build an ALC/LCT packet with the crate-private packet builder (`common::alc::new_alc_pkt`)
+pub fn new_alc_pkt(
+    oti: &crate::core::Oti,
+    cci: &u128,
+    tsi: u64,
+    pkt: &PktFields,
+    profile: crate::sender::Profile,
+    now: std::time::SystemTime,
+) -> Vec<u8> {
+    let pkt = crate::common::pkt::Pkt {
+        payload: pkt.payload.clone(),
+        transfer_length: pkt.transfer_length,
+        esi: pkt.esi,
+        sbn: pkt.sbn,
+        toi: pkt.toi,
+        fdt_id: pkt.fdt_id,
+        cenc: pkt.cenc,
+        inband_cenc: pkt.inband_cenc,
+        close_object: pkt.close_object,
+        source_block_length: pkt.source_block_length,
+        sender_current_time: pkt.sender_current_time,
+    };
+    crate::common::alc::new_alc_pkt(oti, cci, tsi, &pkt, profile, now)
+}
+
+/// Build a close-session packet (`common::alc::new_alc_pkt_close_session`)
+pub fn new_alc_pkt_close_session(cci: &u128, tsi: u64) -> Vec<u8> {
+    crate::common::alc::new_alc_pkt_close_session(cci, tsi)
+}
+
+use std::cell::{Cell, RefCell};
+use std::time::Duration;
+
+thread_local! {
+    static NOW_NS: Cell<u64> = const { Cell::new(0) };
+    static NB_READS: Cell<u64> = const { Cell::new(0) };
+    #[allow(clippy::type_complexity)]
+    static READ_HOOK: RefCell<Option<Box<dyn FnMut(u64) -> u64>>> = const { RefCell::new(None) };
+}
+
+/// Virtual monotonic clock (per thread), replacement of `std::time::Instant`
+#[derive(Clone, Copy, Debug, PartialEq, Eq, PartialOrd, Ord, Hash)]
+pub struct Instant(u64);
+
+impl Instant {
+    /// Read the virtual clock. The read hook (if any) is called with the index of this read and
+    /// returns the number of nanoseconds that elapse just before the read.
+    pub fn now() -> Instant {
+        let index = NB_READS.with(|n| {
+            let v = n.get();
+            n.set(v + 1);
+            v
+        });
+        let hook = READ_HOOK.with(|h| h.borrow_mut().take());
+        if let Some(mut hook) = hook {
+            let adv = hook(index);
+            NOW_NS.with(|n| n.set(n.get().saturating_add(adv)));
+            READ_HOOK.with(|h| {
+                let mut h = h.borrow_mut();
+                if h.is_none() {
+                    *h = Some(hook);
+                }
+            });
+        }
+        Instant(NOW_NS.with(|n| n.get()))
+    }
+
+    /// Time elapsed since this instant (one clock read)
+    pub fn elapsed(&self) -> Duration {
+        Instant::now().duration_since(*self)
+    }
+
+    /// Saturating difference of two instants
+    pub fn duration_since(&self, earlier: Instant) -> Duration {
+        Duration::from_nanos(self.0.saturating_sub(earlier.0))
+    }
+}
+
+/// Set the virtual clock of the current thread (nanoseconds) and reset the read counter
+pub fn clock_reset(ns: u64) {
+    NOW_NS.with(|n| n.set(ns));
+    NB_READS.with(|n| n.set(0));
+}
+
+/// Advance the virtual clock of the current thread
+pub fn clock_advance(d: Duration) {
+    NOW_NS.with(|n| n.set(n.get().saturating_add(d.as_nanos() as u64)));
+}
+
+/// Current value of the virtual clock (nanoseconds), without counting as a read
+pub fn clock_peek() -> u64 {
+    NOW_NS.with(|n| n.get())
+}
+
+/// Number of clock reads since the last reset
+pub fn clock_reads() -> u64 {
+    NB_READS.with(|n| n.get())
+}
+
+/// Install (or remove) the hook called on every clock read of the current thread
+pub fn clock_set_read_hook(hook: Option<Box<dyn FnMut(u64) -> u64>>) {
+    READ_HOOK.with(|h| *h.borrow_mut() = hook);
+}
